@@ -4,6 +4,7 @@ from ..gens import *
 
 ID = "C03"
 LEAN_MODULE = "Ucfg.Props.C03"
+LEVEL_TEXT = 'Characterisation theorems for every float64 bit pattern and every target width through the guards regenerated from types.go (float_toInt, float_toUint, int_never_wraps, duration_*); Spec.C03 as oracle; exact dyadic float arithmetic, no floats in Lean.'
 CORRESPONDENCE = "PrimUnpack.reifyPrim / Conv.Prim.to* ~ (*Config).Unpack into struct{V T} and the typed getters"
 RULE = ("boundary-directed: for each of the 14 primitive kinds + time.Duration (plus pointer-to and named variants) the values "
         "{min-1,min,min+1,-1,0,1,max-1,max,max+1} of every sized type, +-2^63, 2^64, 2^53+-1, NaN, +-Inf, +-0, subnormals, the floats "
